@@ -33,6 +33,7 @@ def run(rep: Report, tier: str) -> None:
 	rule_b(rep, idx, nm, gm)
 	rule_c(rep, idx, nm, gm)
 	rule_d(rep, idx, nm, gm)
+	rule_e(rep, idx, nm, gm)
 
 
 def py_key(tok: str, kind: str) -> str:
@@ -384,3 +385,36 @@ def _elements_all(c: ClassInfo, idx: SourceIndex, nm: NodeModel) -> bool:
 		if f is not None and any(isinstance(n, ast.Return) and unparse(n.value) in ('self._elements', 'self._children()') for n in ast.walk(f.node)):
 			return True
 	return False
+
+
+# ---- (e) declaration matchers discriminate by tag where the grammar mixes declared names and expressions --------------------------
+
+def rule_e(rep: Report, idx: SourceIndex, nm: NodeModel, gm: GrammarModel) -> None:
+	"""DeclLocalVar is a candidate for `var` and `name` entries. Under a parent tag where the grammar puts a declared `name` next to an expression that can be a bare
+	`var` (with_item: expression ["as" name]), only the `name` entry is a declaration; the matcher must therefore test the entry's own tag."""
+	r = rep.rule('C02/decl-matcher-discriminates-tag', 'for every parent tag that DeclableMatcher.is_decl_local_var treats as "identified by name only": if the grammar also allows a `var` (expression) child there, the matcher requires the entry tag to be `name`', floor=2)
+	pm = idx.mod('rogw/tranp/syntax/node/definition/primary.py')
+	f = pm.func('DeclableMatcher.is_decl_local_var')
+	parents: list[str] = []
+	cond = None
+	for n in ast.walk(f.node):
+		if isinstance(n, ast.Compare) and len(n.ops) == 1 and isinstance(n.ops[0], ast.In) and 'parent_tag' in unparse(n.left) and isinstance(n.comparators[0], ast.List):
+			parents = [const_str(e) for e in n.comparators[0].elts if const_str(e)]
+	for n in ast.walk(f.node):
+		if isinstance(n, ast.If) and 'is_identified_by_name_only' in unparse(n.test) and any(isinstance(x, ast.Return) and isinstance(x.value, ast.Constant) and x.value.value is True for x in n.body):
+			cond = n
+	if not parents or cond is None:
+		r.undecided('shape', f.where, 'is_decl_local_var no longer has the `parent_tag in [...]` early-accept branch')
+		return
+	tags = set(nm.tags_of(nm.by_name['DeclLocalVar']))
+	tsrc = unparse(cond.test)
+	requires_name = "last_tag == 'name'" in tsrc
+	for p_ in parents:
+		kids = gm.child_tags(p_)
+		mixed = sorted((kids & tags) - {'name'})
+		if not kids:
+			r.violate(f'parent:{p_}', f.where, f'`{p_}` is not a tag of data/grammar.lark')
+		elif mixed:
+			r.check(requires_name, f'parent:{p_}', (pm.relpath, cond.lineno), f'under `{p_}` the grammar allows {mixed} children (expressions) besides the declared `name`; the early-accept branch `{tsrc}` does not require the entry tag to be `name`, so a bare name used as an expression there (`with lock:`) is classified as a declaration instead of a reference', tsrc)
+		else:
+			r.ok(f'parent:{p_}', (pm.relpath, cond.lineno), message='only `name` children can be DeclLocalVar candidates here')
